@@ -1173,6 +1173,17 @@ func c11History(r *hx.R, root string, idx int, tier string, st *c11Stats) hx.Cas
 				labels = append(labels, hx.P(hx.C("LOp", hx.C("OWrite", hx.S(dirs[d]), hx.S(name), c11Pool[c].term)), hx.B(ok)))
 				human = append(human, fmt.Sprintf("point the link d%d at another directory holding %s %s => %v", d, name, c11Pool[c].term, ok))
 				known = "C11/symlinked-dir-retarget"
+				if r.Chance(0.5) {
+					// ... unless the cache is configured again afterwards (same directories, same mode): Configure sets the
+					// watch up anew, which resolves the link anew; from then on the cache must follow the new target
+					_, _ = hx.Guard(func() { _ = cache.Configure(cdi.WithAutoRefresh(true)) })
+					labels = append(labels, hx.P("LQuery", "true"))
+					human = append(human, "Configure(WithAutoRefresh(true)) again")
+					known = ""
+					if r.Chance(0.5) {
+						do(c11Op{Kind: "write", Dir: d, N: hx.Pick(r, []string{"a.json", "b.yaml", "c.json"}), C: 3 + r.Intn(len(c11Pool)-3)})
+					}
+				}
 				if ok {
 					nOK++
 				}
